@@ -2,16 +2,16 @@ CONSTANTS
   None = None
   c1 = c1  c2 = c2  c3 = c3  w1 = w1  w2 = w2  rp = rp  rb = rb
   NSlab = 3  Cap = 3  Q = 1  NPkt = 3
-  Clients = {c1, c2}
+  Clients = {c1}
   Kinds <- KMixedSmall
   Workers = {w1}
   PReaders = {rp}
-  BReaders = {rb}
+  BReaders <- NoReaders
   B = 1  TXMax = 2
-  Inline = TRUE  BatchTX = TRUE  Drops = FALSE
+  Inline = FALSE  BatchTX = FALSE  Drops = TRUE
   ScrubTxLen = TRUE  ResetRawSA = TRUE  BothOnHandoff = FALSE
-  ResetSlot = TRUE  Opts <- ONone
+  ResetSlot = TRUE  Opts <- OAll
 SPECIFICATION Spec
 SYMMETRY SymClients
-INVARIANTS TypeOK SingleOwner ReleaseOnce ReplyIsOwn SilentStaysSilent AtMostOneSend LeaseBound QuiescedIff BurstBound HandoffClean FreeIsScrubbed
+INVARIANTS ReplyOptIsOwn SlotIsZeroBetweenRequests TypeOK SingleOwner ReleaseOnce ReplyIsOwn SilentStaysSilent AtMostOneSend LeaseBound QuiescedIff BurstBound HandoffClean FreeIsScrubbed
 CHECK_DEADLOCK FALSE
